@@ -21,7 +21,7 @@ def load(reg):
     reg.declare_fields("InputParameterMap", _value="map[str,ref:InputParameter]")
     reg.declare_fields("InputParameterInt", _min="xreal", _max="xreal", _format="str")
     reg.declare_fields("InputParameterFloat", _min="xreal", _max="xreal", _format="str")
-    reg.declare_fields("InputParameterQuantity", _min_si="xreal", _max_si="xreal", _format="str", _type="obj")
+    reg.declare_fields("InputParameterQuantity", _min_si="xreal", _max_si="xreal", _format="str", _type="type")
     reg.declare_fields("InputParameterSelectionList", _options="seq[str]")
     reg.declare_fields("InputParameterUnit", _type="obj")
     reg.declare_fields("DSOLModel", _simulator="obj", _input_parameters="ref:InputParameterMap",
@@ -106,11 +106,42 @@ def load(reg):
     set_value("InputParameterBool", "VALID_Bool(%s, %s)", "isbool(%s)", "TypeError")
     set_value("InputParameterSelectionList", "VALID_Sel(%s, %s)", "isstr(%s)", "TypeError")
     reg.contracts["InputParameterSelectionList.set_value"].for_classes = ["InputParameterSelectionList", "InputParameterUnit"]
-    reg.contract("InputParameterQuantity.set_value", params={"value": "obj"}, abstract=True,
-                 may_raise=[("ValueError", "True"), ("TypeError", "True")], on_raise="unchanged",
-                 ensures=["same(self._value, value)"], modifies=["self._value"],
-                 note="assumed (not verified here): needs the Quantity model of C16/C17", props=C18)
-    reg.trust("InputParameterQuantity.set_value: contract assumed, not verified (raises or stores the argument)")
+    # class invariant of every InputParameterQuantity object (established by its constructor -- an assumed contract -- and kept
+    # because the three fields are written by constructors only: frame scan below): the type is a quantity class, the bounds are numbers
+    def qparam_inv(eng, st):
+        import z3 as _z3
+        from pyvc import sorts as _S
+        r = _z3.Int("qp_r")
+        ty = eng.heap_arr(st, "InputParameterQuantity._type", _S.parse_type("type"))
+        lo = eng.heap_arr(st, "InputParameterQuantity._min_si", _S.parse_type("xreal"))
+        hi = eng.heap_arr(st, "InputParameterQuantity._max_si", _S.parse_type("xreal"))
+        qids = [eng.class_id(c) for c in eng.table.subclasses("Quantity") if c != "Quantity"]
+        return _z3.ForAll([r], _z3.Implies(_S.typeof(r) == eng.class_id("InputParameterQuantity"),
+                                          _z3.And(_z3.Or(*[_z3.Select(ty, r) == i for i in qids]),
+                                                  _z3.Not(_S.XR.is_nan(_z3.Select(lo, r))), _z3.Not(_S.XR.is_nan(_z3.Select(hi, r))))),
+                          patterns=[_z3.Select(ty, r)])
+    reg.global_invs.append(("every InputParameterQuantity holds a quantity class and numeric bounds", qparam_inv))
+    reg.trust("InputParameterQuantity class invariant (type is a quantity class, bounds are not NaN): established by the constructor "
+              "(assumed contract), preserved because _type/_min_si/_max_si are written by constructors only (frame scan obligation)")
+
+    def qparam_scan(table):
+        out = []
+        for fld in ("_type", "_min_si", "_max_si"):
+            w = table.assignments_to_field(fld)
+            out.append(("field %s is written only by constructors" % fld, bool(w) and all(q.endswith(".__init__") for q in w), "writers: %s" % w))
+        return out
+    reg.ground_obligation("quantity-parameter type and bounds are constructor-only (frame scan)", ["C18"], qparam_scan)
+
+    # quantity parameter: the value must be an instance of the parameter's quantity class and its SI value (whatever unit it
+    # was entered in) must lie within the bounds; over the Quantity model of contracts/quantity.py
+    QV = "asref(value, 'Quantity').g_si"
+    OKQ = "isinstance_of(value, self._type) and num(self._min_si) <= %s and %s <= num(self._max_si)" % (QV, QV)
+    reg.contract("InputParameterQuantity.set_value", params={"value": "obj"},
+                 # (instances of the class invariant below, provable at every call site from it)
+                 requires=["is_quantity_class(self._type)", "not isnan(self._min_si) and not isnan(self._max_si)"],
+                 raises=[("ValueError", "self._read_only or not (%s)" % OKQ)], on_raise="unchanged",
+                 ensures=["same(self._value, value)", OKQ, "same(self._default_value, old(self._default_value))"],
+                 modifies=["self._value"], props=C18)
     reg.contract("InputParameterMap.set_value", params={"value": "obj"},
                  raises=[("NotImplementedError", "True")], modifies=[], props=C18)
 
